@@ -277,4 +277,143 @@ theorem normalized_top (T : Table) (hT : TableOK T) (c : Ctor) (hc : c ∈ T.cto
     simp only [deserialize, deserObj, hid', hd, hargs, hname, this, normalize, normObj]
     cases normBody T (reparse T k) (normObj T k) (some c.name) c.args fs <;> simp
 
+/-! ### the side condition can be weakened; the identity case -/
+
+theorem enc_mono (T : Table) {P Q : Bytes → Prop} (hPQ : ∀ b, P b → Q b) {item : Item} {bs : Bytes}
+    (h : Enc T P item bs) : Enc T Q item bs := by
+  induction h with
+  | int h1 h2 => exact Enc.int h1 h2
+  | long h1 h2 => exact Enc.long h1 h2
+  | nat h1 h2 => exact Enc.nat h1 h2
+  | int128 h1 h2 => exact Enc.int128 h1 h2
+  | int256 h1 h2 => exact Enc.int256 h1 h2
+  | boolT => exact Enc.boolT
+  | boolF => exact Enc.boolF
+  | bytes h1 h2 h3 => exact Enc.bytes h1 h2 (hPQ _ h3)
+  | string h1 h2 h3 h4 => exact Enc.string h1 h2 h3 (hPQ _ h4)
+  | bare hn hc _ ih => exact Enc.bare hn hc ih
+  | boxed hm hn hc _ ih => exact Enc.boxed hm hn hc ih
+  | manyNil => exact Enc.manyNil
+  | manyCons _ _ ih1 ih2 => exact Enc.manyCons ih1 ih2
+  | scalar hv _ ih => exact Enc.scalar hv ih
+  | vector hv hl hb _ ih => exact Enc.vector hv hl hb ih
+  | bodyNil => exact Enc.bodyNil
+  | bodyReq hc hl _ _ ih1 ih2 => exact Enc.bodyReq hc hl ih1 ih2
+  | bodyOn hc hf h0 hb hl _ _ ih1 ih2 => exact Enc.bodyOn hc hf h0 hb hl ih1 ih2
+  | bodyOff hc hf h0 hb hl _ ih => exact Enc.bodyOff hc hf h0 hb hl ih
+
+/-- when no `bytes`/`string` content starts with a registered id the normal form is the value itself. -/
+theorem normalize_id (T : Table) (hT : TableOK T) (c : Ctor) (hc : c ∈ T.ctors) (fs : Fields) (body : Bytes)
+    (hcan : fs = canonFields c.args fs) (hb : Enc T (fun b => byIdLE T b = none) (.body c.args fs) body) :
+    ∃ N, ∀ fuel, N ≤ fuel → normalize T fuel c (.obj (some c.name) fs) = some (.obj (some c.name) fs) := by
+  obtain ⟨N1, h1⟩ := roundtrip_top T _ true hT (fun _ b hb => hb) c hc fs body hcan hb
+  obtain ⟨N2, h2⟩ := normalized_top T hT c hc fs body (enc_mono T (fun _ _ => trivial) hb)
+  refine ⟨max N1 N2, fun fuel hf => ?_⟩
+  have a := h1 fuel (by omega) []
+  have b := h2 fuel (by omega) []
+  rw [a] at b
+  cases hn : normalize T fuel c (.obj (some c.name) fs) with
+  | none => rw [hn] at b; simp at b
+  | some w => rw [hn] at b; simp only [Option.map_some, Option.some.injEq, Prod.mk.injEq] at b; rw [← b.1]
+
+/-! ### contents that are serialised objects: the field becomes the object's own normal form / a list of them -/
+
+/-- a `bytes` content that is the serialisation of one well-typed object is replaced by that object's normal form
+(and the outer call raises iff the inner normalisation does). -/
+theorem reparse_one (T : Table) (hT : TableOK T) (c : Ctor) (hc : c ∈ T.ctors) (fs : Fields) (body : Bytes)
+    (hb : Enc T (fun _ => True) (.body c.args fs) body) :
+    ∃ N, ∀ fuel, N ≤ fuel →
+      reparse T fuel (natToLE 4 c.id ++ body) = normalize T fuel c (.obj (some c.name) fs) := by
+  obtain ⟨N, hN⟩ := normalized_top T hT c hc fs body hb
+  refine ⟨N, fun fuel hf => ?_⟩
+  have h := hN fuel hf []
+  simp only [List.append_nil, deserialize] at h
+  simp only [reparse, autoParse, h]
+  cases normalize T fuel c (.obj (some c.name) fs) <;> simp
+
+/-- serialised objects one after the other: (constructor, fields, encoding of the fields). -/
+def catSer : List (Ctor × Fields × Bytes) → Bytes
+  | [] => []
+  | (c, _, body) :: l => (natToLE 4 c.id ++ body) ++ catSer l
+
+/-- the normal forms of all of them (`none` if one of them raises). -/
+def normEach (T : Table) (fuel : Nat) : List (Ctor × Fields × Bytes) → Option (List Val)
+  | [] => some []
+  | (c, fs, _) :: l =>
+    match normalize T fuel c (.obj (some c.name) fs) with
+    | none => none
+    | some w => (normEach T fuel l).map (fun ws => w :: ws)
+
+def AllEnc (T : Table) (l : List (Ctor × Fields × Bytes)) : Prop :=
+  ∀ x ∈ l, x.1 ∈ T.ctors ∧ Enc T (fun _ => True) (.body x.1.args x.2.1) x.2.2
+
+theorem catSer_length (l : List (Ctor × Fields × Bytes)) : 4 * l.length ≤ (catSer l).length := by
+  induction l with
+  | nil => simp [catSer]
+  | cons x l ih =>
+    obtain ⟨c, fs, body⟩ := x
+    simp only [catSer, List.length_append, natToLE_length, List.length_cons]
+    omega
+
+theorem autoLoop_catSer (T : Table) (hT : TableOK T) (l : List (Ctor × Fields × Bytes)) (hl : AllEnc T l) :
+    ∃ N, ∀ fuel, N ≤ fuel → ∀ (pre : Bytes) (acc : List Val) (k : Nat), l.length ≤ k →
+      autoLoop (fun x => deserObj T true fuel x none) (pre ++ catSer l) (pre ++ catSer l).length k pre.length acc =
+        (normEach T fuel l).map (fun ws => .list (acc ++ ws)) := by
+  induction l with
+  | nil =>
+    refine ⟨0, fun fuel _ pre acc k _ => ?_⟩
+    cases k <;> simp [autoLoop, catSer, normEach]
+  | cons x l ih =>
+    obtain ⟨c, fs, body⟩ := x
+    obtain ⟨N1, h1⟩ := ih (fun y hy => hl y (List.mem_cons_of_mem _ hy))
+    have hx := hl (c, fs, body) (List.mem_cons_self ..)
+    obtain ⟨N2, h2⟩ := normalized_top T hT c hx.1 fs body hx.2
+    refine ⟨max N1 N2, fun fuel hf pre acc k hk => ?_⟩
+    obtain ⟨k', rfl⟩ : ∃ k', k = k' + 1 := ⟨k - 1, by simp only [List.length_cons] at hk; omega⟩
+    have hj : pre.length < (pre ++ catSer ((c, fs, body) :: l)).length := by
+      simp only [catSer, List.length_append, natToLE_length]; omega
+    have hd : (pre ++ catSer ((c, fs, body) :: l)).drop pre.length = natToLE 4 c.id ++ body ++ catSer l := by
+      simp [catSer]
+    have ht := h2 fuel (by omega) (catSer l)
+    simp only [deserialize] at ht
+    simp only [autoLoop, hj, if_true, hd, ht, normEach]
+    cases hn : normalize T fuel c (.obj (some c.name) fs) with
+    | none => simp
+    | some w =>
+      have hne : ¬ (natToLE 4 c.id ++ body).length = 0 := by simp only [List.length_append, natToLE_length]; omega
+      have hi := h1 fuel (by omega) (pre ++ (natToLE 4 c.id ++ body)) (acc ++ [w]) k'
+        (by simp only [List.length_cons] at hk; omega)
+      have e : pre ++ catSer ((c, fs, body) :: l) = pre ++ (natToLE 4 c.id ++ body) ++ catSer l := by
+        simp [catSer]
+      simp only [Option.map_some, hne, if_false]
+      rw [e, show pre.length + (natToLE 4 c.id ++ body).length = (pre ++ (natToLE 4 c.id ++ body)).length by simp, hi]
+      cases normEach T fuel l <;> simp
+
+/-- a `bytes` content that consists of two or more serialised well-typed objects is replaced by the list of their
+normal forms. -/
+theorem reparse_many (T : Table) (hT : TableOK T) (x y : Ctor × Fields × Bytes) (l : List (Ctor × Fields × Bytes))
+    (hl : AllEnc T (x :: y :: l)) :
+    ∃ N, ∀ fuel, N ≤ fuel →
+      reparse T fuel (catSer (x :: y :: l)) = (normEach T fuel (x :: y :: l)).map (fun ws => .list ws) := by
+  obtain ⟨c, fs, body⟩ := x
+  have hx := hl (c, fs, body) (List.mem_cons_self ..)
+  obtain ⟨N1, h1⟩ := autoLoop_catSer T hT (y :: l) (fun z hz => hl z (List.mem_cons_of_mem _ hz))
+  obtain ⟨N2, h2⟩ := normalized_top T hT c hx.1 fs body hx.2
+  refine ⟨max N1 N2, fun fuel hf => ?_⟩
+  have ht := h2 fuel (by omega) (catSer (y :: l))
+  simp only [deserialize] at ht
+  have e : catSer ((c, fs, body) :: y :: l) = natToLE 4 c.id ++ body ++ catSer (y :: l) := by simp [catSer]
+  have hlen := catSer_length (y :: l)
+  simp only [reparse, autoParse]
+  rw [e, ht, normEach]
+  cases hn : normalize T fuel c (.obj (some c.name) fs) with
+  | none => simp
+  | some w =>
+    have hj : (natToLE 4 c.id ++ body).length < (natToLE 4 c.id ++ body ++ catSer (y :: l)).length := by
+      simp only [List.length_append, List.length_cons] at hlen ⊢; omega
+    have hi := h1 fuel (by omega) (natToLE 4 c.id ++ body) [w] (natToLE 4 c.id ++ body ++ catSer (y :: l)).length
+      (by simp only [List.length_append, List.length_cons] at hlen ⊢; omega)
+    simp only [Option.map_some, hj, if_true, hi]
+    cases normEach T fuel (y :: l) <;> simp
+
 end TonVerif.Proofs.Tl
